@@ -1,6 +1,10 @@
 """C11 — grammar analysis never certifies a grammar that can loop without progress."""
 import os
 import vf
+import symgen
+import pegspec
+import traitgen
+from props import C01, C09
 
 LEVEL_TEXT = ('bounded symbolic model checking of the analysis algorithm, one frame at a time: the real analyze_cycles_impl::work() (compiled unchanged against '
               'array-backed stand-ins for map/set/vector, recursive calls cut and replaced by a stub with symbolic verdicts) is proved to satisfy the frame '
@@ -21,4 +25,92 @@ def plan(ctx):
         qs.append(vf.Query('frame/' + name, unit, h, defines={'TYPE': t}, unwind=5, mem_gb=20, timeout=3000, unwindset=['harness.%d:9' % i for i in range(6)],
                            bounds={'subs': '0..3', 'container_capacity': 4, 'analyze_type': name}, validate_iters=20000,
                            note='frame contract of work() for analyze_type::' + name))
+    qs += traits_plan(ctx)
+    return qs
+
+
+TRAIT_HARNESS = r"""/* generated harness (C11 b): analyze_traits of the real rule (dumped from the compiler) vs the behaviour of the real rule */
+#define SP_N %(N)d
+#define SP_K 3
+#define SP_MAXRES 3
+#define SP_LOG 20
+%(k2)s
+#include "verif.h"
+#include "symtab.h"
+%(spec)s
+static u8 c[12];
+static void harness(void) {
+  sp_setup();
+  /* c[k]: "sym<k> always consumes when it succeeds" — what the analysis would know about the sub-rule */
+  for (int k = 0; k < 12; ++k) c[k] = 0;
+  for (int k = 0; k < SP_K; ++k) c[k] = (u8)IN(0, 1);
+  for (int k = 0; k < SP_K; ++k) for (u64 p = 0; p <= SP_N; ++p) ASSUME(!c[k] || T_res[k][p] != 1 || T_np[k][p] > p);
+%(k2assume)s
+  out_t e = %(specfn)s(sp_start);
+  /* trait tree: %(tree)s */
+  CHECK(e.r != 4 || (%(selfloop)s), "a repetition that can re-enter its body without progress is an edge the analysis explores without consumption (reported as a problem)");
+  ASSUME(e.r != 4);
+  u64 o[8];
+  w_%(name)s_ar(sp_buf, sp_n, sp_start, o);
+  ASSUME(!sp_exhausted);
+  CHECK(!(%(consumes)s) || o[0] != 1 || o[1] > sp_start, "a rule the analysis treats as always-consuming really consumes whenever it succeeds");
+  for (unsigned i = 0; i < SP_LOG; ++i) if (i < sp_nlog && sp_log_pos[i] == sp_start) {
+    u8 k = sp_log_k[i];
+%(edges)s
+  }
+  CHECK(sp_nlog <= SP_LOG, "call log fits (harness bound)");
+  OBS(o[0]); OBS(o[1]);
+  REACH(o[0] == 1, "rule matched");
+%(reach2)s
+}
+"""
+
+
+def traits_plan(ctx):
+    doc = pegspec.Doc(os.path.join(vf.REPO, 'doc', 'Rule-Reference.md'))
+    N = 3
+    cases = [{'name': 'k_' + n, 'cxx': t, 'spec': t, 'inc': None, 'k2': 0} for n, t in C01.CLASSICAL + C01.NESTED if n not in ('seq0', 'sor0', 'opt0')]
+    for c in C09.sym_cases(True):
+        if '::' in c['cxx'] or c['bytes']:
+            continue
+        cases.append({'name': 'v_' + c['name'], 'cxx': c['cxx'], 'spec': c['spec'], 'inc': c['inc'], 'k2': c['k2']})
+    if ctx.quick():
+        # one representative per trait specialisation
+        seen, keep = set(), []
+        for c in cases:
+            head = c['cxx'].split('<')[0].strip()
+            if head in seen:
+                continue
+            seen.add(head)
+            keep.append(c)
+        cases = keep
+    incs = sorted({c['inc'] for c in cases if c['inc']})
+    trees = traitgen.dump_traits([(c['name'], c['cxx']) for c in cases], vf.INC, os.path.join(vf.VERIF, 'harness'), includes=incs)
+    qs = []
+    for c in cases:
+        tree = trees[c['name']]
+        if 'none' in __import__('json').dumps(tree):
+            ctx.notes.append('no analyze_traits for ' + c['cxx'])
+            continue
+        edges, selfs = traitgen.start_edges(tree)
+        el = []
+        for k in range(3):
+            cond = ' || '.join(edges.get(k, [])) or '0'
+            el.append('    if (k == %d) CHECK(%s, "every sub-rule the real rule enters at its start position is an edge of its analyze_traits reachable without consumption");' % (k, cond))
+        g = pegspec.Gen()
+        e = pegspec.lower(pegspec.parse(c['spec']), doc)
+        fn = g.fn(e)
+        k2 = c['k2']
+        k2assume = ''
+        if k2:
+            k2assume = ('  for (int k = 0; k < SP_K2; ++k) c[10 + k] = (u8)IN(0, 1);\n'
+                        '  for (int k = 0; k < SP_K2; ++k) for (u64 p = 0; p <= SP_N; ++p) for (u64 q = 0; q <= SP_N; ++q) ASSUME(!c[10 + k] || T2_res[k][p][q] != 1 || T2_np[k][p][q] > p);')
+        text = TRAIT_HARNESS % {'N': N, 'k2': ('#define SP_K2 %d' % k2) if k2 else '', 'spec': g.text(), 'specfn': fn, 'name': c['name'],
+                                'tree': __import__('json').dumps(tree), 'selfloop': ' || '.join(selfs) or '0', 'consumes': traitgen.consumes(tree),
+                                'edges': '\n'.join(el), 'k2assume': k2assume,
+                                'reach2': '  REACH(sp_nlog >= 1, "a sub-rule was entered");' if 'sym' in repr(e) else ''}
+        unit = ctx.unit('c11t_' + c['name'], text=symgen.wrapper_text([c], includes=[c['inc']] if c['inc'] else (), variants='4'))
+        h = ctx.write('t_%s.c' % c['name'], text)
+        qs.append(vf.Query('traits/' + c['name'], unit, h, unwind=N + 3, unwindset=['harness.%d:21' % i for i in range(12)],
+                           bounds={'N': N, 'rule': c['cxx'], 'trait_tree': tree}, note='analyze_traits of %s conservative w.r.t. the real rule' % c['cxx']))
     return qs
